@@ -172,6 +172,12 @@ def run(rep, tier):
             txt = nows(show(e["node"]["args"][4]))
             mc = re.search(r"\.([xyz])\(\)\)?$", txt)
             comps = {mc.group(1)} if mc else set()
+            if not comps and hasattr(scale, "free_symbols"):
+                # value-based: the folded scale is odd in exactly one Cartesian component of the vectors it is built from (g.x, r.x/|r|, -g[0] through a helper ...)
+                for c_ in "xyz":
+                    sy_ = [x_ for x_ in scale.free_symbols if str(x_).endswith("." + c_)]
+                    if sy_ and sp.simplify(scale.xreplace({x_: -x_ for x_ in sy_}) + scale) == 0:
+                        comps.add(c_)
             key = "%s|row|%s|%s#%d" % (fn, str(sp.expand(row))[-40:], txt[-24:], len(per_atom) + total_rows)
             if len(comps) != 1:
                 rep.broken("R6.4", "%s: the scale argument %s is not one component of a vector" % (fn, str(scale)[:80]))
